@@ -175,6 +175,13 @@ def name_return(sig, ret, where):
     return sig
 
 
+def _with_loops(fn, loops):
+    import copy
+    f = copy.copy(fn)
+    f.loops = loops
+    return f
+
+
 def closure_spans(b):
     """locate closures in a body: returns list of (start_of_params, end_of_params, body_start, body_end, is_block)"""
     toks = rustlex.lex(b)
@@ -400,6 +407,23 @@ def gen_fn(fn, g, probe_labels, unit_name):
         # original body text after literal rewrites, before ghost inserts)
         if fn.loops:
             offs = rustlex.loop_body_offsets(b)
+            # loops may be keyed by ordinal (int) or by a text fragment of their header (str); a keyed loop that
+            # is not found is reported as a shape change and its contract is dropped
+            resolved = {}
+            for key, lp in fn.loops.items():
+                if isinstance(key, int):
+                    resolved[key] = lp
+                    continue
+                found = None
+                for idx, (kw, kwpos, bpos) in enumerate(offs, start=1):
+                    if key in b[kwpos:bpos] and idx not in resolved:
+                        found = idx
+                        break
+                if found is None:
+                    g.shape_changed.setdefault(fn.key, []).append("no loop whose header contains %r" % key)
+                else:
+                    resolved[found] = lp
+            fn = _with_loops(fn, resolved)
             for k in sorted(fn.loops):
                 if k > len(offs):
                     # the loop structure of the function changed: the contracts of the missing
